@@ -243,7 +243,7 @@ static int valid_p(long p) { return p >= 0 && p < NPOOLS; }
 int main(void)
 {
     static char line[512];
-    setvbuf(stdout, NULL, _IOFBF, 1 << 16);
+    setvbuf(stdout, NULL, _IOLBF, 1 << 16);
     arena_init();
     if (ABT_init(0, NULL) != ABT_SUCCESS)
         return 3;
